@@ -419,6 +419,10 @@ func (r *funcRun) call(st *State, cc *ssa.CallCommon, instr ssa.Instruction, res
 			panic(unsupported(fmt.Sprintf("call of %s: cannot name arguments (%d names, %d args)", callee, len(names), len(args))))
 		}
 	}
+	for k, h := range r.c.CallHints[callee] {
+		r.emitGoal(st, "call-hint", "="+callee+"."+clauseID(h, k), h.Props, h.Expr, nil, r.old, r.baseVars(st), h.Src+" at "+r.pos(instr))
+		st.assume(r.evalBool(st, h.Expr, r.old, nil, h.Src))
+	}
 	return r.applyContract(st, c, callee, names, args, ptypes, sig, instr, resT)
 }
 
